@@ -52,6 +52,18 @@ def full_workflow_has_synthetic(workflow: Workflow, stage: StageExecution) -> bo
     return any(s.parent_stage_id == stage.id for s in workflow.stages)
 
 
+def before_stages_incomplete(workflow: Workflow, stage: StageExecution) -> bool:
+    """Whether `stage` has a synthetic before-stage that has not completed yet."""
+    from stabilize.models.stage import SyntheticStageOwner
+
+    return any(
+        s.parent_stage_id == stage.id
+        and s.synthetic_stage_owner == SyntheticStageOwner.STAGE_BEFORE
+        and not s.status.is_complete
+        for s in workflow.stages
+    )
+
+
 @dataclass
 class RecoveryResult:
     """Result of workflow recovery operation."""
@@ -365,6 +377,16 @@ class WorkflowRecovery:
                                     execution_id=full_workflow.id,
                                     stage_id=stage.id,
                                 )
+                            )
+                        elif never_started and before_stages_incomplete(full_workflow, stage):
+                            # The stage's own tasks start only once its before-stages
+                            # have completed (ContinueParentStage does that). Those
+                            # children are re-queued by the loop above; starting the
+                            # first task here would run it alongside - or instead of -
+                            # the before-stages and strand the stage.
+                            logger.debug(
+                                "Stage %s waits for its before-stages - not re-queuing its first task",
+                                stage.id,
                             )
                         else:
                             recovery_messages.append(
